@@ -704,7 +704,12 @@ func (q *TransferQueue) enqueueAndCollectRetriesFor(batch batch) (batch, error) 
 					q.Skip(o.Size)
 					q.wait.Done()
 				}
-			} else if a == nil && manifest.standaloneTransferAgent == "" {
+			} else if a == nil && (manifest.standaloneTransferAgent == "" || q.dryRun) {
+				// No action: the server has no use for a transfer. A
+				// standalone transfer agent is not asked and gives no
+				// actions; its transfers are started all the same,
+				// except in a dry run, whose only result is that the
+				// remote would do its part, which nobody has confirmed.
 				tools.VerifTrace("tq.reply", o.Oid, "noaction")
 				q.Skip(o.Size)
 				q.wait.Done()
